@@ -14,14 +14,19 @@ def main(ctx):
         return recvcheck.main(ctx)
     quick = ctx.tier == "quick"
     specs = recvlib.gen_sessions(ctx, "small")
-    specs = senderlib.sample(specs, 60 if quick else 400, ctx.seed)
+    specs = recvlib.sample_sessions(specs, 80 if quick else 400, ctx.seed)
     specs.append(SUFFIX)
     suffix_sid = len(specs) - 1
     infos = recvlib.session_infos(ctx, specs, "c04")
     nsuf = len(infos[suffix_sid]["pkts"])
     adv = recvlib.gen_chan(ctx, "c04", infos, sel=lambda i: i["sid"] != suffix_sid)
     total = len(adv)
-    adv = senderlib.sample(adv, 900 if quick else 15000, ctx.seed)
+    # equal shares per kind of adversarial operation (a uniform sample would be dominated by the per-packet operations)
+    kinds = {}
+    for a in adv:
+        kinds.setdefault(a["adv"][0], []).append(a)
+    share = (1500 if quick else 24000) // max(1, len(kinds))
+    adv = [x for k_ in sorted(kinds) for x in senderlib.sample(kinds[k_], share, ctx.seed)]
     rnd = random.Random(ctx.seed)
     behs = []
     for a in adv:
@@ -52,7 +57,7 @@ def main(ctx):
            "traces_validated_against_impl": ctx.traces, "events_judged_by_monitor": ctx.events,
            "adversarial_operations_enumerated_by_tlc": total, "replayed": len(behs),
            "exhaustive": False,
-           "explanation": "TLC enumerates (valid prefix length) x (every single-byte substitution in the header region of packet i, for every packet i | every proper prefix (truncation at every byte) of packet i | 30 crafted FDT instances with missing / zero / huge / non-numeric / inconsistent attributes or malformed XML, each followed by the object packets | seeded mutation sequences: bit flips, header-field edits, truncation, extension, splicing | garbage | packets with an EXT_FTI on the limits of the field widths and of the FEC schemes, built with Wire.tla's encoder: scheme x B x E x transfer length class x scheme-specific values x (SBN, ESI) class) over real sessions of all schemes and signalling modes; plus every byte string of length <= 2 (thorough: <= 3) and seeded longer ones.  The mass cases are pushed into ONE real receiver and logged aggregated (count, ok, err, panic, slowest call, peak heap per call; offenders itemised); afterwards a valid session with fresh TOIs on the same endpoint and TSI must be delivered exactly (C01 predicate).  Hangs are caught by a watchdog (3 s per call)"}
+           "explanation": "TLC enumerates (valid prefix length) x (every single-byte substitution in the header region of packet i, for every packet i | every proper prefix (truncation at every byte) of packet i | packet i relabelled with the codepoint of every FEC scheme and cut 0..9 bytes after the start of its payload id | 30 crafted FDT instances with missing / zero / huge / non-numeric / inconsistent attributes or malformed XML, each followed by the object packets | seeded mutation sequences: bit flips, header-field edits, truncation, extension, splicing | garbage | packets with an EXT_FTI on the limits of the field widths and of the FEC schemes, built with Wire.tla's encoder: scheme x B x E x transfer length class x scheme-specific values x (SBN, ESI) class) over real sessions of all schemes and signalling modes; plus every byte string of length <= 2 (thorough: <= 3) and seeded longer ones.  The mass cases are pushed into ONE real receiver and logged aggregated (count, ok, err, panic, slowest call, peak heap per call; offenders itemised); afterwards a valid session with fresh TOIs on the same endpoint and TSI must be delivered exactly (C01 predicate).  Hangs are caught by a watchdog (3 s per call)"}
     return finish(ctx, "fault_enumeration", dict(cov, evaluations=max(1, ctx.events), distinct_nontrivial=max(2, len(behs)),
                   rule="one evaluation = one trace event judged by the monitor (a batch event aggregates up to 10^5 pushed datagrams); distinct = adversarial behaviours (prefix, operation, session) replayed"),
                   ["heap is measured by a counting global allocator in the harness process", "time limits: 2 s per datagram (monitor), 3 s watchdog (wall clock)"])
